@@ -1,2 +1,2 @@
--- stub: replaced by the real driver for model ClientRead (imports Pyrtma.Drv.ClientRead)
-def main : IO Unit := pure ()
+import Pyrtma.Drv.ClientRead
+def main : IO Unit := Pyrtma.Drv.ClientRead.main
